@@ -130,7 +130,7 @@ impl Workload for PersistWorkload {
             "row order is free (tables as maps, alignments as column multisets); ordered outputs (map, distance, lo -r) are compared byte for byte".into(),
         ]
     }
-    fn generate(&self, seed: u64, tier: Tier) -> PersistCase {
+    fn generate(&self, seed: u64, _index: u64, tier: Tier) -> PersistCase {
         let mut rng = Rng::new(seed);
         let fits64 = rng.chance(35);
         let k = if fits64 {
